@@ -20,7 +20,10 @@ RULE = ("case = (MAC, version, block size, data length, padding-length byte,"
         "the last 256 bytes; distinct = hash of the whole case. Explicit "
         "grids (every pad 0..255 x 4 lengths, every length 0..330 x 7 pads, "
         "all MAC x version pairs, 8 corruption classes) are enumerated, the "
-        "rest is drawn by Hypothesis")
+        "rest is drawn by Hypothesis; plus the call site: a directly keyed "
+        "RecordLayer per MAC-then-encrypt CBC suite (block 8 and 16) fed "
+        "reference-sender records with legal, over-long, corrupted and "
+        "truncated padding")
 ASSUMPTIONS = [
     "functional equivalence only; no timing side channel is measured",
     "MAC objects are built the way RecordLayer builds them (tlshashlib "
@@ -161,7 +164,22 @@ def make_mac(m, v, key):
     return createHMAC(bytearray(key), digestmod)
 
 
+def check_site(case):
+    """The one call site (RecordLayer._decryptThenMAC) must hand the check
+    the real block size / version / MAC: a directly keyed RecordLayer is fed
+    records from the reference sender (C02's level-A machinery) for every
+    MAC-then-encrypt CBC suite, including the 8-byte-block one."""
+    from props import c02
+    r = c02.check_rl(case["site"])
+    r.labels = ["site"] + [x for x in r.labels if x != "A"]
+    if not r.ok:
+        r.sig = "call-site:" + r.sig
+    return r
+
+
 def check(case):
+    if "site" in case:
+        return check_site(case)
     m, v, bs = case["mac"], tuple(case["ver"]), case["bs"]
     b = build(case)
     if b is None:
@@ -225,6 +243,25 @@ def explicit(tier, seed):
             for i in range(MACS[m]):
                 yield {"mac": m, "ver": list(v), "bs": bs, "dlen": 5,
                        "pad": 3, "corr": "mac_each", "idx": i, "xor": 1}
+    for c in site_cases(tier, seed):
+        yield c
+
+
+def site_cases(tier, seed):
+    from props.c01 import triples
+    from vlib import iana
+    k = 0
+    for sid, v, etm in triples():
+        su = iana.SUITES[sid]
+        if su.kind != "cbc" or etm or tuple(v) >= (3, 4) or su.draft:
+            continue
+        for ln in (0, 5, 44, 60):
+            for m in ("legal_pad", "bad_pad", "long_pad_forged", "mte_short",
+                      "ssl3_pad_over_block"):
+                k += 1
+                yield {"site": {"level": "A", "suite": sid, "ver": list(v),
+                                "etm": False, "client": bool(k % 2), "m": m,
+                                "lens": [3, ln], "pad": k, "salt": seed % 4}}
 
 
 def strategy(tier):
